@@ -157,6 +157,42 @@ def mc_emit(prop, name, module, cfg, outfile, workers, timeout):
     return res
 
 
+def canon_abs(a):
+    """canonical text of an abstract diagram (JSON shape abs()): vertices by id, edges by endpoints, phases in units of pi/4"""
+    def ph(p):
+        return (p[0] * (4 // p[1])) % 8
+    v = sorted((x["id"], x["ty"], ph(x["ph"]), tuple(sorted(x.get("vars", []))), bool(x.get("vc", False))) for x in a["v"])
+    e = sorted((min(x["u"], x["w"]), max(x["u"], x["w"]), x["t"]) for x in a["e"])
+    return json.dumps([v, e, a["ins"], a["outs"], a["sc"], a.get("sf", [])])
+
+
+def family_agreement(prop, name, cfg, famstr, timeout=1200):
+    """The family TLC builds from spec/Family.tla under `cfg` (mc/MC_Family.tla prints every member) and the family the
+    harness enumerates for the parameter string `famstr` (gens::enum_family) must be the same SET of diagrams."""
+    d = os.path.join(WORK, prop)
+    f_tlc = os.path.join(d, f"fam_{name}.tlc.ndjson")
+    r = mc_emit(prop, "fam_" + name, "MC_Family.tla", cfg, f_tlc, min(NCPU, 8), timeout)
+    if not r["ok"]:
+        raise ToolError(f"MC_Family {cfg}: {r['violation']}")
+    prefix = os.path.join(d, f"fam_{name}.h")
+    summ = record("family", prefix, 1, ["--fam", famstr], timeout)
+    with open(f_tlc) as f:
+        a = {canon_abs(json.loads(line)) for line in f}
+    b = set()
+    for sh in glob.glob(prefix + ".*.ndjson"):
+        with open(sh) as f:
+            b |= {canon_abs(json.loads(line)["g"]) for line in f}
+        os.remove(sh)
+    os.remove(f_tlc)
+    res = {"family": famstr, "cfg": cfg, "members_tlc": len(a), "members_harness": len(b), "harness_enumerated": summ["detail"]["members"],
+           "only_tlc": len(a - b), "only_harness": len(b - a), "equal": a == b and len(b) == summ["detail"]["members"]}
+    log(f"[{prop}] FAMILY {name}: TLC builds {len(a)} diagrams from spec/Family.tla ({cfg}), the harness enumerates {summ['detail']['members']} "
+        f"({len(b)} distinct) for '{famstr}': {'same set' if res['equal'] else 'DIFFERENT'}")
+    if not res["equal"]:
+        raise ToolError(f"the harness's family '{famstr}' is not the family of {cfg} (only TLC: {len(a - b)}, only harness: {len(b - a)})")
+    return res
+
+
 def record(engine, prefix, shards, args, timeout=3600):
     for f in glob.glob(prefix + ".*.ndjson"):
         os.remove(f)
